@@ -1022,6 +1022,12 @@ func (g *Graph) correlatedReturn(f *Frame, ret *ssa.Return) ([]Node, bool) {
 		switch x := b.Instrs[i].(type) {
 		case *ssa.Extract, *ssa.BinOp, *ssa.UnOp, *ssa.DebugRef:
 			continue
+		case *ssa.Store:
+			// the results parked in local cells (a named result captured by a deferred closure)
+			if _, local := x.Addr.(*ssa.Alloc); local {
+				continue
+			}
+			return nil, false
 		case *ssa.If:
 			for idx := range b.Succs {
 				call, nonNil, ok := ErrEdge(x, idx)
